@@ -3,7 +3,7 @@ right / wrong by the reference models, never by construction)."""
 from vt.ref import fa, cf, pd, tmr, rx
 
 
-def fa_mutants(R, rng, nfa=False, limit=12):
+def fa_mutants(R, rng, nfa=False, limit=12, extra_word_len=0):
     Q, S, T, q0, F = R
     out = []
     Q = list(Q)
@@ -40,7 +40,42 @@ def fa_mutants(R, rng, nfa=False, limit=12):
         if S:
             out.append(('add_move', fa.make(Q, S, T + [(p, rng.choice(S), q)], q0, F)))
     rng.shuffle(out)
-    return out[:limit]
+    out = out[:limit]
+    # two targeted mutants that are always included: a language that differs ONLY on the empty word, and one that
+    # differs only on a single word of a chosen (maximal) length
+    init = 'init9'
+    if init not in Q:
+        T3 = T + [(init, a, q) for (p, a, q) in T if p == q0]
+        F3 = set(F) | ({init} if q0 not in F else set())
+        out.append(('differs_only_on_empty_word', fa.make(Q + [init], S, T3, init, F3)))
+    if S and extra_word_len:
+        RD = fa.determinize(R)[0]
+        for _ in range(20):
+            w = ''.join(rng.choice(S) for _ in range(extra_word_len))
+            if not fa.dfa_run(RD, w):
+                # product of the (determinised) automaton with a chain that recognises exactly w
+                d = {(p, a): q for (p, a, q) in RD[2]}
+                names = {}
+                Tn, Fn = [], []
+
+                def nm(p, i):
+                    return names.setdefault((p, i), 'x%d_%s' % (p, 'd' if i is None else str(i)))
+                todo = [(RD[3], 0)]
+                seen = {(RD[3], 0)}
+                while todo:
+                    (p, i) = todo.pop()
+                    if p in set(RD[4]) or i == len(w):
+                        Fn.append(nm(p, i))
+                    for a in S:
+                        q = d[(p, a)]
+                        j = (i + 1) if (i is not None and i < len(w) and w[i] == a) else None
+                        Tn.append((nm(p, i), a, nm(q, j)))
+                        if (q, j) not in seen:
+                            seen.add((q, j))
+                            todo.append((q, j))
+                out.append(('one_extra_word_of_length_%d' % extra_word_len, fa.make(sorted(set(names.values())), S, Tn, nm(RD[3], 0), Fn)))
+                break
+    return out
 
 
 def rename_states(R, fn):
